@@ -17,6 +17,8 @@ reaches the rules in the same shape:
                                       target read on the right-hand side)
   K8  a = b = CONST               ->  a = CONST; b = CONST
   K11 k = c; for x in IT: BODY; k += 1  ->  for k, x in enumerate(IT, c)
+  K13 for x in E: yield x         ->  yield from E       (x not used
+                                      elsewhere)
   K12 k = a; while k < N [and C]: BODY; k += s  ->  for k in range(a, N, s):
                                       [if not C: break]; BODY   (k, N
                                       not written in BODY, no continue, k
@@ -37,6 +39,7 @@ Line numbers of the rewritten statements are those of the loop.
 from __future__ import annotations
 
 import ast
+import os
 
 
 def _names(node):
@@ -162,9 +165,31 @@ class Canon(ast.NodeTransformer):
                 return None
             inside_ids = {id(n) for n in ast.walk(loop)
                           if isinstance(n, ast.Name) and n.id == t}
+            # names of nested scopes that bind ``t`` themselves (parameter
+            # or local of an inner def / lambda) are different variables
+            shadowed = set()
+            for inner in ast.walk(fn):
+                if inner is fn or not isinstance(
+                        inner, (ast.FunctionDef, ast.AsyncFunctionDef,
+                                ast.Lambda)):
+                    continue
+                a_ = inner.args
+                bound = {x.arg for x in a_.posonlyargs + a_.args
+                         + a_.kwonlyargs}
+                if a_.vararg:
+                    bound.add(a_.vararg.arg)
+                if a_.kwarg:
+                    bound.add(a_.kwarg.arg)
+                if not isinstance(inner, ast.Lambda):
+                    bound |= {n.id for b in inner.body for n in ast.walk(b)
+                              if isinstance(n, ast.Name)
+                              and isinstance(n.ctx, ast.Store)}
+                if t in bound:
+                    shadowed |= {id(n) for n in ast.walk(inner)}
             outside_loads = [n for n in ast.walk(fn)
                              if isinstance(n, ast.Name) and n.id == t
                              and id(n) not in inside_ids
+                             and id(n) not in shadowed
                              and isinstance(n.ctx, ast.Load)]
             if outside_loads and not _reads_own_defs(fn, t, outside_loads):
                 return None
@@ -402,6 +427,10 @@ class Canon(ast.NodeTransformer):
             written |= _stores(s_)
         if k in written or (_names(bound) & written):
             return None
+        # a second conjunct that reads what the body writes makes this a
+        # "retry until" loop, not a counting scan: leave it alone
+        if rest and any(_names(r) & written for r in rest):
+            return None
         # attribute / subscript bounds could be changed by calls in the body:
         # accept only names, constants and len() of a name
         okb = all(isinstance(x, (ast.Name, ast.Constant, ast.Load, ast.Call,
@@ -447,7 +476,7 @@ class Canon(ast.NodeTransformer):
         return new
 
     def _loops_to_comps(self, body):
-        out = self._manual_counters(self._while_counters(list(body)))
+        out = self._manual_counters(list(body) if os.environ.get("MOKAPOT_NO_K12") else self._while_counters(list(body)))
         i = 0
         while i < len(out):
             st = out[i]
@@ -567,6 +596,25 @@ class Canon(ast.NodeTransformer):
 
     def visit_For(self, node):
         self.generic_visit(node)
+        # K13  for x in E: yield x   ->   yield from E
+        if isinstance(node.target, ast.Name) and not node.orelse and \
+                len(node.body) == 1 and isinstance(
+                    node.body[0], ast.Expr) and isinstance(
+                        node.body[0].value, ast.Yield) and isinstance(
+                            node.body[0].value.value, ast.Name) and \
+                node.body[0].value.value.id == node.target.id:
+            fn = self.cur_fn
+            later = [n for n in ast.walk(fn) if isinstance(n, ast.Name)
+                     and n.id == node.target.id
+                     and n is not node.target
+                     and n is not node.body[0].value.value] \
+                if fn is not None else [1]
+            if not later:
+                new = ast.Expr(value=ast.YieldFrom(value=node.iter))
+                ast.copy_location(new, node)
+                ast.fix_missing_locations(new)
+                self.applied["K13"] = self.applied.get("K13", 0) + 1
+                return new
         # K10  for x in (a, b, c): BODY   ->   BODY[a]; BODY[b]; BODY[c]
         # (display of plain names, short straight-line body that only uses
         # x as a load)
